@@ -102,6 +102,21 @@ struct Rec<'a> {
     bom: bool,
 }
 #[derive(Serialize)]
+struct EncRec<'a> {
+    id: String,
+    kind: &'a str,
+    entry: &'a str,
+    enc: &'a str,
+    /// bytes the reader holds (BOM + encoded text) and UTF-8 length of the decoded text without the BOM
+    raw_len: usize,
+    dec_len: usize,
+    cap: i64,
+    out: Out,
+    reff: Out,
+    pulled: usize,
+    yaml: &'a str,
+}
+#[derive(Serialize)]
 struct BorrowRec<'a> {
     id: String,
     kind: &'a str,
@@ -295,6 +310,12 @@ pub fn corpus() -> Vec<String> {
     .map(|s| s.to_string())
     .collect();
     v.push("a: ".to_string() + &"é".repeat(40) + "\n");
+    // what may follow an explicit document end marker: nothing, a comment, text the scanner rejects, another document
+    for tail in ["", "# c\n", "@bad\n", "}\n", "`\n", "\"open\n", "b: 2\n", "---\nb: 2\n", "...\n", "- [\n"] {
+        v.push(format!("a: 1\n...\n{tail}"));
+    }
+    v.push("- é\n...\n]\n".to_string());
+    v.push("--- x\n...\n@\n".to_string());
     v
 }
 
@@ -413,6 +434,43 @@ pub fn run(args: &Args) -> i32 {
                         let reff = ref_entry(entry, text);
                         w.put(&Rec { id: format!("d{di}-cap{cap}-c{ci}-{entry}"), kind: "sched", entry, ws: ws.clone(), avail: n, ending: "eof", cap,
                                      sched: if ci == 0 { "ones".into() } else { "big".into() }, out: o, reff, has_ref: true, pulled: pulled.get(), yaml: text, bom });
+                    }
+                }
+            }
+        }
+    }
+    // (d) the cap against inputs whose raw length differs from their decoded length: UTF-8 with a BOM, UTF-16 LE / BE with a BOM.
+    // Below both lengths the call must fail, above both it must be unaffected, and whatever it returns must never be a value
+    // built from a truncated prefix.
+    for (di, doc) in docs.iter().enumerate() {
+        if doc.is_empty() || doc.contains('\r') {
+            continue;
+        }
+        let text = doc.as_str();
+        for enc in ["utf8-bom", "utf16le", "utf16be"] {
+            let mut bytes: Vec<u8> = vec![];
+            match enc {
+                "utf8-bom" => { bytes.extend_from_slice(&[0xEF, 0xBB, 0xBF]); bytes.extend_from_slice(text.as_bytes()); }
+                "utf16le" => { bytes.extend_from_slice(&[0xFF, 0xFE]); for u in text.encode_utf16() { bytes.extend_from_slice(&u.to_le_bytes()); } }
+                _ => { bytes.extend_from_slice(&[0xFE, 0xFF]); for u in text.encode_utf16() { bytes.extend_from_slice(&u.to_be_bytes()); } }
+            }
+            let raw_len = bytes.len();
+            let dec_len = text.len();
+            let hi = raw_len.max(dec_len + 3);
+            let step = if thorough || hi <= 24 { 1 } else { 3 };
+            let mut caps: Vec<usize> = (0..=hi + 1).step_by(step).collect();
+            for c in [dec_len.saturating_sub(1), dec_len, dec_len + 1, raw_len.saturating_sub(1), raw_len, raw_len + 1, hi + 50] {
+                if !caps.contains(&c) { caps.push(c); }
+            }
+            for cap in caps {
+                for (ci, sched) in [vec![1usize; raw_len], vec![4096]].iter().enumerate() {
+                    if ci == 0 && cap % 2 == 1 && !thorough { continue; }
+                    for entry in ["reader", "read"] {
+                        let rd = SchedReader::new(&bytes, raw_len, sched.clone(), false, kinds[0]);
+                        let pulled = rd.pulled.clone();
+                        let o = run_entry(entry, rd, cap as i64);
+                        let reff = ref_entry(entry, text);
+                        w.put(&EncRec { id: format!("d{di}-{enc}-cap{cap}-c{ci}-{entry}"), kind: "enc", entry, enc, raw_len, dec_len, cap: cap as i64, out: o, reff, pulled: pulled.get(), yaml: text });
                     }
                 }
             }
